@@ -531,6 +531,7 @@ void abort(void) { VP_FAIL("abort called"); }
 
 static void vp_switch_ctx(int tid) {
   int cur = vp_tid;
+  VP_ASSERT(tid >= 0 && tid < VP_NTHREADS, "VP-BOUND: more scheduler contexts than VP_NTHREADS");
   vp_ctx_hp[cur] = vp_hp; vp_ctx_sp[cur] = vp_sp; vp_ctx_exc[cur] = vp_exc;
   if (vp_ctx_hp[tid] == 0) {
     vp_set_thread(tid);
